@@ -40,6 +40,9 @@ pub enum BOp {
     Stream { sel: u16, script: Vec<HOp> },
     /// open every listed stream (up to a cap) and run the script on each
     AllStreams { script: Vec<HOp> },
+    /// open a handle, use it, then remove (0) / overwrite (1) the stream or remove its parent
+    /// storage recursively (2) while the handle is still open, and keep using the handle
+    StaleHandle { sel: u16, pre: Vec<HOp>, how: u8, post: Vec<HOp> },
     // ---- mutations (C11)
     CreateStream { parent: u16, name: u8, data: DataSpec },
     CreateStorage { parent: u16, name: u8 },
@@ -56,6 +59,7 @@ impl BOp {
     pub fn is_mutation(&self) -> bool {
         match self {
             BOp::CreateStream { .. } | BOp::CreateStorage { .. } | BOp::RemoveStream { .. } | BOp::RemoveStorage { .. } | BOp::RemoveStorageAll { .. } | BOp::SetState { .. } | BOp::SetClsid { .. } | BOp::Touch { .. } => true,
+            BOp::StaleHandle { .. } => true,
             BOp::Stream { script, .. } | BOp::AllStreams { script } => script.iter().any(|h| matches!(h, HOp::Write(_) | HOp::WriteAll(_) | HOp::SetLen(_) | HOp::SetLenRel(_))),
             _ => false,
         }
@@ -213,6 +217,31 @@ pub fn run_blind(c: &mut Cfb, script: &[BOp], st: &mut BlindStats, trace: &mut V
                         d?;
                     }
                     Err(_) => st.errs += 1,
+                }
+            }
+            BOp::StaleHandle { sel, pre, how, post } => {
+                st.mutating_calls += 1;
+                let l: Vec<String> = listing(c, 2000)?.into_iter().filter(|x| x.1).map(|x| x.0).collect();
+                if l.is_empty() {
+                    continue;
+                }
+                let p = l[pick(*sel, l.len())].clone();
+                if let Ok(mut s) = guard("open_stream", || c.open_stream(&p))? {
+                    st.streams_opened += 1;
+                    let r = run_handle(&mut s, pre, st).and_then(|_| {
+                        match how % 3 {
+                            0 => guard("remove_stream", || c.remove_stream(&p).is_ok())?,
+                            1 => guard("create_stream", || c.create_stream(&p).is_ok())?,
+                            _ => {
+                                let parent = std::path::Path::new(&p).parent().map(|x| x.to_string_lossy().to_string()).unwrap_or_else(|| "/".into());
+                                guard("remove_storage_all", || c.remove_storage_all(&parent).is_ok())?
+                            }
+                        };
+                        run_handle(&mut s, post, st)
+                    });
+                    let d = guard("h_drop", move || drop(s));
+                    r?;
+                    d?;
                 }
             }
             BOp::AllStreams { script } => {
